@@ -124,6 +124,41 @@ theorem exact_totals (big : D) (dist : Nat → Nat → D) (n k : Nat) (prev : Na
 
 end exactness
 
+section mean
+variable {D : Type} [Sc D]
+
+theorem totals_mean_fold (t : List (Entry D)) :
+    ∀ (a : Totals D) (i : Nat),
+      (t.foldl (totalsStep 0) (a, i)).1.mean = t.foldl (fun s e => s + e.1) a.mean := by
+  induction t with
+  | nil => intro a i; rfl
+  | cons e es ih =>
+    intro a i
+    simp only [List.foldl_cons]
+    have hstep : (totalsStep 0 (a, i) e).1.mean = a.mean + e.1 ∧ ∃ a' i', totalsStep 0 (a, i) e = (a', i') := by
+      unfold totalsStep
+      simp only [Nat.not_lt_zero, false_and, if_false]
+      constructor
+      · split <;> rfl
+      · exact ⟨_, _, rfl⟩
+    obtain ⟨hm, a', i', he⟩ := hstep
+    rw [he] at hm ⊢
+    rw [ih a' i']
+    simp only at hm
+    rw [hm]
+
+/-- **Mean clause**: with no fixed colours the reported mean is the sum of all recorded
+nearest-neighbour distances (added left to right, from 0) divided by their number — an identity
+of the model, hence exact for IEEE floats too. -/
+theorem mean_no_fixed (big : D) (prev : Nat × Nat) (t : List (Entry D)) :
+    (updateTotals big 0 prev t).mean = (t.foldl (fun s e => s + e.1) 0.0) / Sc.ofNat t.length := by
+  unfold updateTotals
+  simp only [Nat.sub_zero]
+  rw [totals_mean_fold]
+
+
+end mean
+
 /-- The same for real IEEE binary64 distances (demands `ScOrd Float`, proved from `Float.Model`). -/
 theorem float_update_exact (big : Float) (dist dist' : Nat → Nat → Float) (n c : Nat) (hd' : DistOk big dist')
     (hn : 2 ≤ n) (hc : c < n) (hagree : ∀ i j, i ≠ c → j ≠ c → dist' i j = dist i j)
